@@ -1439,12 +1439,151 @@ func c03Extract(args []string) int {
 	consts := c03LoadConsts(files)
 	fields := []string{"Name", "Token", "Meta", "Children", "Runtime", "binding", "nullDenotation", "leftDenotation"}
 	entries := map[string]c03Entry{}
+	giveUp := "" // a reason why the table cannot be read with certainty (then: exit 1, nothing written)
+	// package-level functions (for entries built by a helper)
+	funcs := map[string]*ast.FuncDecl{}
+	for _, f := range files {
+		for _, d := range f.Decls {
+			if fd, ok := d.(*ast.FuncDecl); ok && fd.Recv == nil {
+				funcs[fd.Name.Name] = fd
+			}
+		}
+	}
+	// subst replaces identifiers that are parameters of a helper by the arguments of the call
+	var subst func(e ast.Expr, env map[string]ast.Expr) ast.Expr
+	subst = func(e ast.Expr, env map[string]ast.Expr) ast.Expr {
+		switch x := e.(type) {
+		case *ast.Ident:
+			if v, ok := env[x.Name]; ok {
+				return v
+			}
+		case *ast.ParenExpr:
+			return &ast.ParenExpr{X: subst(x.X, env)}
+		case *ast.BinaryExpr:
+			return &ast.BinaryExpr{X: subst(x.X, env), Op: x.Op, Y: subst(x.Y, env)}
+		case *ast.UnaryExpr:
+			return &ast.UnaryExpr{Op: x.Op, X: subst(x.X, env)}
+		case *ast.CallExpr:
+			args := make([]ast.Expr, len(x.Args))
+			for i, a := range x.Args {
+				args[i] = subst(a, env)
+			}
+			return &ast.CallExpr{Fun: x.Fun, Args: args}
+		}
+		return e
+	}
+	// entryOf understands: ASTNode{…}, &ASTNode{…}, {…} (elided type), and a call of a helper
+	// whose body is a single `return <one of these>` (parameters substituted)
+	var entryOf func(v ast.Expr, env map[string]ast.Expr, depth int) (c03Entry, bool)
+	entryOf = func(v ast.Expr, env map[string]ast.Expr, depth int) (c03Entry, bool) {
+		if depth > 5 {
+			return c03Entry{}, false
+		}
+		switch x := v.(type) {
+		case *ast.ParenExpr:
+			return entryOf(x.X, env, depth+1)
+		case *ast.UnaryExpr:
+			if x.Op == token.AND {
+				return entryOf(x.X, env, depth+1)
+			}
+			return c03Entry{}, false
+		case *ast.CallExpr:
+			id, ok := x.Fun.(*ast.Ident)
+			if !ok {
+				return c03Entry{}, false
+			}
+			fd, ok := funcs[id.Name]
+			if !ok || fd.Body == nil || len(fd.Body.List) != 1 {
+				return c03Entry{}, false
+			}
+			ret, ok := fd.Body.List[0].(*ast.ReturnStmt)
+			if !ok || len(ret.Results) != 1 {
+				return c03Entry{}, false
+			}
+			var params []string
+			for _, fl := range fd.Type.Params.List {
+				for _, n := range fl.Names {
+					params = append(params, n.Name)
+				}
+			}
+			if len(params) != len(x.Args) {
+				return c03Entry{}, false
+			}
+			inner := map[string]ast.Expr{}
+			for i, pn := range params {
+				inner[pn] = subst(x.Args[i], env)
+			}
+			return entryOf(ret.Results[0], inner, depth+1)
+		case *ast.CompositeLit:
+			vals := map[string]ast.Expr{}
+			for i, f := range x.Elts {
+				if fkv, ok := f.(*ast.KeyValueExpr); ok {
+					vals[c03ExprName(fkv.Key)] = subst(fkv.Value, env)
+				} else if i < len(fields) {
+					vals[fields[i]] = subst(f, env)
+				}
+			}
+			e := c03Entry{node: "\"\"", nud: "nil", led: "nil", found: true}
+			name := func(v ast.Expr) (string, bool) {
+				switch y := v.(type) {
+				case *ast.Ident:
+					return y.Name, true
+				case *ast.BasicLit:
+					return y.Value, true
+				}
+				return "", false
+			}
+			ok := true
+			if v, has := vals["Name"]; has {
+				e.node, ok = name(v)
+			}
+			if v, has := vals["binding"]; has && ok {
+				coef, b, good := consts.linear(v, 0)
+				if !good || coef != 0 || b < 0 {
+					return c03Entry{}, false
+				}
+				e.binding = b
+			}
+			if v, has := vals["nullDenotation"]; has && ok {
+				e.nud, ok = name(v)
+			}
+			if v, has := vals["leftDenotation"]; has && ok {
+				e.led, ok = name(v)
+			}
+			return e, ok
+		}
+		return c03Entry{}, false
+	}
 	nmaps := 0
+	isMapIndex := func(e ast.Expr) (ast.Expr, bool) {
+		ix, ok := e.(*ast.IndexExpr)
+		if !ok {
+			return nil, false
+		}
+		id, ok := ix.X.(*ast.Ident)
+		return ix.Index, ok && id.Name == "astNodeMap"
+	}
 	visit := func(n ast.Node) bool {
 		var rhs ast.Expr
 		switch x := n.(type) {
 		case *ast.AssignStmt:
 			if len(x.Lhs) != 1 || len(x.Rhs) != 1 {
+				for _, l := range x.Lhs {
+					if _, ok := isMapIndex(l); ok {
+						giveUp = "astNodeMap[…] assigned in a multi-assignment"
+					}
+				}
+				return true
+			}
+			if key, ok := isMapIndex(x.Lhs[0]); ok {
+				// a later astNodeMap[TokenX] = … replaces the entry (statements are visited in source order)
+				k, isID := key.(*ast.Ident)
+				e, good := entryOf(x.Rhs[0], nil, 0)
+				if !isID || !good {
+					giveUp = "an assignment astNodeMap[…] = … is not understood"
+				} else {
+					entries[k.Name] = e
+				}
 				return true
 			}
 			if id, ok := x.Lhs[0].(*ast.Ident); !ok || id.Name != "astNodeMap" {
@@ -1456,51 +1595,40 @@ func c03Extract(args []string) int {
 				return true
 			}
 			rhs = x.Values[0]
+		case *ast.CallExpr:
+			if id, ok := x.Fun.(*ast.Ident); ok && id.Name == "delete" && len(x.Args) == 2 {
+				if a, ok := x.Args[0].(*ast.Ident); ok && a.Name == "astNodeMap" {
+					giveUp = "delete(astNodeMap, …)"
+				}
+			}
+			return true
 		default:
 			return true
 		}
 		cl, ok := rhs.(*ast.CompositeLit)
 		if !ok {
+			giveUp = "astNodeMap is not initialised by a map literal"
 			return true
 		}
 		nmaps++
 		for _, el := range cl.Elts {
 			kv, ok := el.(*ast.KeyValueExpr)
 			if !ok {
+				giveUp = "astNodeMap literal has an element without a key"
 				continue
 			}
-			key := c03ExprName(kv.Key)
-			vl, ok := kv.Value.(*ast.CompositeLit)
-			if !ok {
+			k, isID := kv.Key.(*ast.Ident)
+			if !isID {
+				giveUp = "astNodeMap literal has a key that is not a token constant"
 				continue
 			}
-			vals := map[string]ast.Expr{}
-			for i, f := range vl.Elts {
-				if fkv, ok := f.(*ast.KeyValueExpr); ok {
-					vals[c03ExprName(fkv.Key)] = fkv.Value
-				} else if i < len(fields) {
-					vals[fields[i]] = f
-				}
+			e, good := entryOf(kv.Value, nil, 0)
+			if !good {
+				// an entry that cannot be read: its values are NOT made up
+				entries[k.Name] = c03Entry{binding: -1, found: true}
+				continue
 			}
-			e := c03Entry{node: "\"\"", nud: "nil", led: "nil", found: true}
-			if v, ok := vals["Name"]; ok {
-				e.node = c03ExprName(v)
-			}
-			if v, ok := vals["binding"]; ok {
-				coef, b, ok := consts.linear(v, 0)
-				if !ok || coef != 0 || b < 0 {
-					fmt.Fprintln(os.Stderr, "binding of", key, "cannot be evaluated to a constant")
-					b = -1
-				}
-				e.binding = b
-			}
-			if v, ok := vals["nullDenotation"]; ok {
-				e.nud = c03ExprName(v)
-			}
-			if v, ok := vals["leftDenotation"]; ok {
-				e.led = c03ExprName(v)
-			}
-			entries[key] = e
+			entries[k.Name] = e
 		}
 		return true
 	}
@@ -1508,11 +1636,18 @@ func c03Extract(args []string) int {
 		ast.Inspect(f, visit)
 	}
 	if nmaps != 1 {
-		fmt.Fprintln(os.Stderr, "expected exactly one assignment to astNodeMap, found", nmaps)
+		fmt.Fprintln(os.Stderr, "expected exactly one initialisation of astNodeMap, found", nmaps)
 		return 1
 	}
-	for _, e := range entries {
-		if e.binding < 0 {
+	if giveUp != "" {
+		fmt.Fprintln(os.Stderr, "astNodeMap not evaluable:", giveUp)
+		return 1
+	}
+	for _, k := range c03TableKinds {
+		// every token kind of the fragment must have been found as an evaluable entry (a kind that is
+		// really absent from a completely understood map is a fact: unknown token)
+		if e, ok := entries[k[1]]; ok && e.binding < 0 {
+			fmt.Fprintln(os.Stderr, "entry of", k[1], "cannot be evaluated (not a literal / helper call with constant fields)")
 			return 1
 		}
 	}
@@ -1544,7 +1679,7 @@ func c03Extract(args []string) int {
 			}
 			sb.WriteString(fmt.Sprintf("  | %s => %s\n", k[0], v))
 		}
-		sb.WriteString("  | .other => " + dflt + "\n\n")
+		sb.WriteString("  | .other => " + dflt + "   -- not extracted: the driver refuses every other token\n\n")
 	}
 	col("binding", "Nat", func(e c03Entry) string { return strconv.Itoa(e.binding) }, "0")
 	col("nud", "Nud", func(e c03Entry) string {
